@@ -453,4 +453,292 @@ theorem lse_num_create {s s' : State} {t : Tid} {th : Thread} {fr X : Frame} {re
     rw [hz, h1, h2]
     simp [lsTq, lsCnt]
 
+/-! ### a step of a frame that neither is a `push`/`pop` frame nor creates the pool -/
+
+theorem lse_num_plain {cfg : Config} {s : State} {t : Tid} {th : Thread} {fr : Frame} {rest : List Frame}
+    (hrep : cfg.repaired = true) (hr : Reach cfg s) (hI : LseInv s)
+    (hth : s.threads t = some th) (hst : th.stack = fr :: rest) (hfin : th.finished = false)
+    (hnr : lsRingOf fr = none) (hni : fr ≠ .mInit) (hnc : ∀ c, fr = .cRdTp2 c → s.tp = true) :
+    LseNum (stepFrame s t th fr).1 := by
+  have hrep' : s.cfg.repaired = true := by rw [reach_cfg hr]; exact hrep
+  have htlt := ls_thread_lt hr hth
+  have hK := LW.shapeK s t th fr rest hth hst hrep'
+  have hN := lsShapeN s t th fr rest hth hst hnr hrep' (Nat.ne_of_gt htlt) hni hnc
+  have hcb : lseC fr = true → LsAllB rest := by
+    have := hI.cb t th hth; rw [hst] at this; exact this.1
+  have htc : fr = .runRetAfter → th.retB = true → 0 < lsTc s := by
+    intro hfr _
+    subst hfr
+    cases hp : s.pool with
+    | none =>
+      obtain ⟨p, hp2⟩ := pool_frame_has_pool hr hth hfin (by rw [hst]; rfl) rfl
+      rw [hp] at hp2; cases hp2
+    | some p =>
+      have := hI.r p t hp (by simp [lsRaAt, hth, hst, lsRA])
+      simp only [lsTc, hp]; omega
+  have hE := lseShapeN s t th fr rest hth hst hnr hrep' hni hnc hcb htc
+  have hE2 := lseShapeM s t th fr rest hth hst hnr hrep' hni hnc hcb htc
+  -- the pool before
+  have hpool : ∀ p', (stepFrame s t th fr).1.pool = some p' → ∃ p, s.pool = some p ∧ p'.ring = p.ring := by
+    intro p' hp'
+    rcases hN.ring with h0 | h0
+    · rw [hp'] at h0; cases h0
+    · cases hp : s.pool with
+      | none => simp [lsRing, hp, hp'] at h0
+      | some p => simp [lsRing, hp, hp'] at h0; exact ⟨p, rfl, h0⟩
+  -- the other threads
+  have hothr : ∀ u, u ≠ t → (stepFrame s t th fr).1.threads u = s.threads u ∨
+      (s.threads u = none ∧ ((stepFrame s t th fr).1.threads u = some { stack := [.tStart, .wPop1], isWorker := true } ∨
+         ∃ sc, (stepFrame s t th fr).1.threads u = some { stack := [.tStart, .cNext], script := sc })) := by
+    intro u hu
+    rcases hK.others u hu with h2 | ⟨h2, h3⟩
+    · exact Or.inl h2
+    · exact Or.inr ⟨by rw [h2]; exact (reach_inv hr).fresh _ (Nat.le_refl _), h3⟩
+  have hm2o : ∀ u, u ≠ t → lsM2At (stepFrame s t th fr).1 u = lsM2At s u := by
+    intro u hu
+    rcases hothr u hu with h | ⟨h0, h | ⟨sc, h⟩⟩
+    · simp only [lsM2At, h]
+    · simp [lsM2At, h, h0, lsM2]
+    · simp [lsM2At, h, h0, lsM2]
+  have hrao : ∀ u, u ≠ t → lsRaAt (stepFrame s t th fr).1 u = lsRaAt s u := by
+    intro u hu
+    rcases hothr u hu with h | ⟨h0, h | ⟨sc, h⟩⟩
+    · simp only [lsRaAt, h]
+    · simp [lsRaAt, h, h0, lsRA]
+    · simp [lsRaAt, h, h0, lsRA]
+  -- if every client has finished, the stepping thread runs no client code
+  have hnc2 : AllFin s → ncFr fr = true := by
+    intro hall
+    have := lse_allfin_nonclient hr hall hth hfin
+    rw [hst, allNC_cons] at this; exact this.1
+  refine ⟨?_, ?_, ?_⟩
+  · -- the destructor loop stays below `_threadCount`
+    intro p' u hp'
+    obtain ⟨p, hp, _⟩ := hpool p' hp'
+    have hsome : (stepFrame s t th fr).1.pool.isSome = true := by rw [hp']; rfl
+    have hdec := hE2.dec hsome
+    simp only [lsTc, lsMinT, hp, hp'] at hdec
+    by_cases hu : u = t
+    · subst hu
+      have hm := hE2.m2 hsome
+      simp only [lsTc, hp, hp'] at hm
+      cases hn : ncFr fr with
+      | true => exact hm.1 hn (hI.l p u hp)
+      | false =>
+        have h1 := hm.2 hn
+        cases Nat.eq_zero_or_pos (lsM2At s u) with
+        | inl h0 => omega
+        | inr h0 => rw [hnc2 (lse_m2_allfin hr h0)] at hn; cases hn
+    · rw [hm2o u hu]
+      have h1 := hI.l p u hp
+      cases Nat.eq_zero_or_pos (lsM2At s u) with
+      | inl h0 => omega
+      | inr h0 =>
+        have hn := hnc2 (lse_m2_allfin hr h0)
+        cases Nat.lt_or_ge p'.threadCount p.threadCount with
+        | inl hlt => have := hdec.1 hlt; subst this; simp [ncFr] at hn
+        | inr hge => omega
+  · -- `_threadCount > minT` while a retire is in flight
+    intro p' u hp' h
+    obtain ⟨p, hp, _⟩ := hpool p' hp'
+    have hsome : (stepFrame s t th fr).1.pool.isSome = true := by rw [hp']; rfl
+    have hdec := hE2.dec hsome
+    simp only [lsTc, lsMinT, hp, hp'] at hdec
+    by_cases hu : u = t
+    · subst hu
+      have hra := hE2.ra hsome h
+      simp only [lsTc, lsMinT, hp, hp'] at hra
+      rcases hra with h1 | ⟨h1, h2⟩
+      · exact h1
+      · have := hI.r p u hp h1; omega
+    · rw [hrao u hu] at h
+      have h1 := hI.r p u hp h
+      cases Nat.lt_or_ge p'.threadCount p.threadCount with
+      | inr hge => omega
+      | inl hlt =>
+        exfalso
+        have hfr := hdec.1 hlt
+        subst hfr
+        cases hthu : s.threads u with
+        | none => simp [lsRaAt, hthu] at h
+        | some thu =>
+          simp only [lsRaAt, hthu] at h
+          have hh1 : holdStack th.stack = true := by
+            rcases pool_marker_unique hr hth with h2 | h2
+            · exact h2
+            · rw [hst] at h2; simp [noHold, poolHold] at h2
+          have hh2 : holdStack thu.stack = true := by
+            rcases pool_marker_unique hr hthu with h2 | h2
+            · exact h2
+            · rw [lsRA_noHold h] at h2; cases h2
+          exact pool_mutex_exclusive hr hp (fun e => hu e.symm) hth hthu hh1 hh2
+  · -- the balance
+    intro p' hp'
+    obtain ⟨p, hp, hring⟩ := hpool p' hp'
+    have hsome : (stepFrame s t th fr).1.pool.isSome = true := by rw [hp']; rfl
+    rw [hring]
+    have hoth : ∀ u, u < s.nthreads → u ≠ t →
+        lsAt p.ring.pushLog (stepFrame s t th fr).1 u = lsAt p.ring.pushLog s u := by
+      intro u hu hne
+      simp only [lsAt]
+      rcases hK.others u hne with h2 | ⟨h2, _⟩
+      · rw [h2]
+      · have : (u : Nat) = s.nthreads := h2
+        omega
+    have hn : (stepFrame s t th fr).1.nthreads = s.nthreads ∨ (stepFrame s t th fr).1.nthreads = s.nthreads + 1 := by
+      rcases hN.nth with h | ⟨h, _⟩
+      · exact Or.inl h
+      · exact Or.inr h
+    have hsum := ls_sum (s := s) (s' := (stepFrame s t th fr).1) (f := lsAt p.ring.pushLog s)
+      (g := lsAt p.ring.pushLog (stepFrame s t th fr).1) htlt hoth hn
+    have hnw : (if (stepFrame s t th fr).1.nthreads = s.nthreads then 0
+        else lsAt p.ring.pushLog (stepFrame s t th fr).1 s.nthreads) = lsSpawnW fr := by
+      rcases hN.nth with h | ⟨h, h2⟩
+      · rw [if_pos h, hE2.nth0 hsome h]
+      · have : ¬ ((stepFrame s t th fr).1.nthreads = s.nthreads) := by omega
+        rw [if_neg this]; simp only [lsAt]; rw [h2]
+    rw [hnw] at hsum
+    obtain ⟨e1, e2⟩ := hI.e p hp
+    have hl := hI.l p t hp
+    -- a fresh transition into `dJoin`/`dFin` is made by thread 0, which then has no such frame yet
+    have hdd := hE.dd p.ring.pushLog hsome
+    have hnofresh : lsDone s → 1 ≤ lsDjAt (stepFrame s t th fr).1 t → 1 ≤ lsDjAt s t := by
+      intro hds hd'
+      rcases hdd hd' with h | ⟨hb, _⟩
+      · exact h
+      · have ht0 : t = 0 := by
+          cases Nat.decEq t 0 with
+          | isTrue h0 => exact h0
+          | isFalse h0 =>
+            have := (reach_join hr).mainOnly t th hth h0 fr (by rw [hst]; exact List.mem_cons_self ..)
+            rw [hb] at this; cases this
+        obtain ⟨u, thu, hthu, h1⟩ := hds
+        obtain ⟨f, hf, h2⟩ := lsDJ_pos h1
+        have hu0 : u = 0 := by
+          cases Nat.decEq u 0 with
+          | isTrue h0 => exact h0
+          | isFalse h0 =>
+            have := (reach_join hr).mainOnly u thu hthu h0 f hf
+            rcases h2 with ⟨i, rfl⟩ | rfl <;> simp [bottomFr] at this
+        subst ht0; subst hu0
+        rw [hth] at hthu; injection hthu with hthu; subst hthu
+        simpa [lsDjAt, hth] using h1
+    constructor
+    · intro hnd'
+      -- not done afterwards: not done before
+      have hnd : ¬ lsDone s := by
+        rintro ⟨u, thu, hthu, h1⟩
+        apply hnd'
+        by_cases hu : u = t
+        · subst hu
+          have := hE.dk hsome (by simpa [lsDjAt, hthu] using h1)
+          simp only [lsDjAt] at this
+          cases hth' : (stepFrame s u th fr).1.threads u with
+          | none => rw [hth'] at this; simp at this
+          | some th' => rw [hth'] at this; exact ⟨u, th', hth', this⟩
+        · exact ⟨u, thu, LW.step_keep hr hth hst hrep' u thu hu hthu, h1⟩
+      have hd0 : ¬ 1 ≤ lsDjAt (stepFrame s t th fr).1 t := by
+        intro h
+        apply hnd'
+        simp only [lsDjAt] at h
+        cases hth' : (stepFrame s t th fr).1.threads t with
+        | none => rw [hth'] at h; simp at h
+        | some th' => rw [hth'] at h; exact ⟨t, th', hth', h⟩
+      have h1 := hE.e1 p.ring.pushLog hsome (fun h => absurd h hd0)
+      simp only [lsTc, hp, hp'] at h1
+      have := e1 hnd
+      omega
+    · intro hd'
+      by_cases hds : lsDone s
+      · have hncf := hnc2 (lse_done_allfin hr hds)
+        have h2 := hE.e2 p.ring.pushLog hsome hncf (hnofresh hds)
+        have := e2 hds
+        omega
+      · -- the destructor leaves its push loop
+        rcases ls_done_cases hK hd' with h | h
+        · exact absurd h hds
+        · rcases hdd h with h3 | ⟨_, h4, h5, h6⟩
+          · exact absurd ⟨t, th, hth, by simpa [lsDjAt, hth] using h3⟩ hds
+          · simp only [lsTc, hp, hp'] at h5 h6
+            have := h6 hl
+            have := e1 hds
+            omega
+
+/-! ### the invariant in reachable states -/
+
+theorem lseInv_step {cfg : Config} {s s' : State} {t : Tid} {o : List String} (hrep : cfg.repaired = true)
+    (hr : Reach cfg s) (hI : LseInv s) (h : step s t = some (s', o)) : LseInv s' := by
+  have hS := lse_stack_step hrep hr hI h
+  suffices hnum : LseNum s' from ⟨hS.1, hS.2, hnum.l, hnum.r, hnum.e⟩
+  obtain ⟨th, fr, rest, hth, hst, hfin, rfl⟩ := step_inv h
+  cases hnr : lsRingOf fr with
+  | some pc =>
+    have hfr : fr = .ring pc := by cases fr <;> simp [lsRingOf] at hnr; rw [hnr]
+    subst hfr
+    cases hp : s.pool with
+    | none =>
+      have hpn : (stepFrame s t th (.ring pc)).1.pool = none := by
+        rw [LW.ring_step_noPool s t th pc hp]; simp [withFault, hp]
+      exact ⟨fun p' u hp' => (by rw [hpn] at hp'; cases hp'), fun p' u hp' => (by rw [hpn] at hp'; cases hp'),
+        fun p' hp' => (by rw [hpn] at hp'; cases hp')⟩
+    | some p => exact lse_num_ring hrep hr hI hth hst hp h
+  | none =>
+    by_cases hni : fr = .mInit
+    · subst hni
+      have hinit := (reach_inv hr).initOnly t th hth (by rw [hst]; rfl)
+      have hthr : ∀ u thu, s.threads u = some thu → thu = { stack := [Frame.mInit] } := by
+        intro u thu hthu
+        rw [hinit] at hthu
+        simp only [State.init] at hthu
+        split at hthu
+        · injection hthu with hthu; exact hthu.symm
+        · cases hthu
+      have hZ : ∀ u thu, s.threads u = some thu → lsW [] thu = 0 := by
+        intro u thu hthu; rw [hthr u thu hthu]; simp [lsW, lsFr, lsRingOf]
+      have hZ2 : ∀ u, lsM2At s u = 0 := by
+        intro u; simp only [lsM2At]
+        cases hthu : s.threads u with
+        | none => rfl
+        | some thu => rw [hthr u thu hthu]; simp [lsM2]
+      have hZ3 : ∀ u, lsRaAt s u = 0 := by
+        intro u; simp only [lsRaAt]
+        cases hthu : s.threads u with
+        | none => rfl
+        | some thu => rw [hthr u thu hthu]; simp [lsRA]
+      have hX : (stepFrame s t th .mInit).1.threads = upd s.threads t (some (th.cont [.mSpawn 0])) := by
+        simp only [stepFrame]; split <;> rfl
+      have hn : (stepFrame s t th .mInit).1.nthreads = s.nthreads := by
+        simp only [stepFrame]; split <;> rfl
+      have hlog : ∀ p', (stepFrame s t th .mInit).1.pool = some p' → p'.ring.pushLog = [] ∧ p'.threadCount = 0 := by
+        intro p' hp'
+        simp only [stepFrame] at hp'
+        split at hp'
+        · rw [hinit] at hp'; simp [setThread, State.init] at hp'
+        · simp [setThread] at hp'; subst hp'; exact ⟨rfl, rfl⟩
+      exact lse_num_create hth hst hX (by intro rb rj log ab; rfl) rfl rfl rfl rfl hn hlog hZ hZ2 hZ3
+    · by_cases hc : ∃ c, fr = .cRdTp2 c ∧ s.tp = false
+      · obtain ⟨c, rfl, htp⟩ := hc
+        have hZ := ls_early_zero hr (ls_reach hrep hr) hth hst hfin htp
+        obtain ⟨hZ2, hZ3⟩ := lse_early_zero hr hI hth hst hfin htp
+        have hX : (stepFrame s t th (.cRdTp2 c)).1.threads = upd s.threads t (some (th.cont [.cSwapTp c])) := by
+          simp [stepFrame, htp, setThread]
+        have hn : (stepFrame s t th (.cRdTp2 c)).1.nthreads = s.nthreads := by
+          simp [stepFrame, htp, setThread]
+        have hlog : ∀ p', (stepFrame s t th (.cRdTp2 c)).1.pool = some p' →
+            p'.ring.pushLog = [] ∧ p'.threadCount = 0 := by
+          intro p' hp'
+          simp [stepFrame, htp, setThread] at hp'
+          subst hp'; exact ⟨rfl, rfl⟩
+        exact lse_num_create hth hst hX (by intro rb rj log ab; rfl) rfl rfl rfl rfl hn hlog hZ hZ2 hZ3
+      · refine lse_num_plain hrep hr hI hth hst hfin hnr hni ?_
+        intro c hfr
+        cases htp : s.tp with
+        | true => rfl
+        | false => exact absurd ⟨c, hfr, htp⟩ hc
+
+theorem lse_reach {cfg : Config} (hrep : cfg.repaired = true) {s : State} (h : Reach cfg s) : LseInv s := by
+  induction h with
+  | init => exact lseInv_init cfg
+  | step t hr hs ih => exact lseInv_step hrep hr ih hs
+
 end Nstd.Future.LS
